@@ -1,0 +1,15 @@
+//go:build verif
+
+package validation
+
+import "github.com/vechain/thor/v2/thor"
+
+// VerifRenewalList returns the members of the renewal list in iteration order (thin accessor, no logic).
+func (s *Service) VerifRenewalList() ([]thor.Address, error) {
+	var out []thor.Address
+	err := s.repo.renewalList.Iterate(func(a thor.Address) error {
+		out = append(out, a)
+		return nil
+	})
+	return out, err
+}
